@@ -209,3 +209,75 @@ Proof.
   intros sc c ch fuel e q rest a HQ HC HG. unfold resolve_with. rewrite HQ. simpl. rewrite HC. simpl. rewrite HG.
   destruct ((match a_rrset a with None => true | Some _ => false end) && c_raise c); simpl; eexists; split; reflexivity.
 Qed.
+
+(* ---------- the whole resolve() call: exactly the documented results ---------- *)
+Lemma vl_loop_no_internal : forall ls t i j e, vl_loop ls t i j <> Internal e.
+Proof.
+  induction ls as [|l r IH]; intros t i j e; simpl; [discriminate|].
+  destruct (zlen l >? 63); [discriminate|apply IH].
+Qed.
+
+Lemma concatenate_no_internal : forall a b e, concatenate a b <> Internal e.
+Proof.
+  intros a b e. unfold concatenate. destruct (is_absolute a && (0 <? zlen b)); [discriminate|].
+  unfold mk_name, validate_labels.
+  destruct (vl_loop (a ++ b) 0 None 0%nat) as [[t i]|x|x] eqn:EV.
+  - destruct (t >? 255); [discriminate|]. destruct i as [k|]; [|discriminate].
+    destruct (Nat.eqb k (length (a ++ b) - 1)); discriminate.
+  - discriminate.
+  - exfalso. eapply vl_loop_no_internal; eauto.
+Qed.
+
+Lemma concat_all_no_internal : forall q sl e, concat_all q sl <> Internal e.
+Proof.
+  induction sl as [|s r IH]; intros e; simpl; [discriminate|].
+  destruct (concatenate q s) as [x|x|x] eqn:EC; simpl; try discriminate.
+  - destruct (concat_all q r) as [y|y|y] eqn:ER; simpl; try discriminate. exfalso. eapply IH; eauto.
+  - exfalso. eapply concatenate_no_internal; eauto.
+Qed.
+
+Lemma qnames_to_try_no_internal : forall r q srch e, qnames_to_try r q srch <> Internal e.
+Proof.
+  intros r q srch e. unfold qnames_to_try. destruct (is_absolute q); [discriminate|].
+  destruct (concatenate q root) as [x|x|x] eqn:EC; simpl; try discriminate.
+  - destruct (match srch with Some b => b | None => r_use_search_by_default r end); [|discriminate].
+    destruct (concat_all q (search_list r)) as [y|y|y] eqn:ER; simpl; try discriminate.
+    + destruct (zlen q >? match r_ndots r with Some n => n | None => 1 end); discriminate.
+    + exfalso. eapply concat_all_no_internal; eauto.
+  - exfalso. eapply concatenate_no_internal; eauto.
+Qed.
+
+Definition documented (f : final) : Prop :=
+  match f with
+  | FAnswer _ | FNoAnswer _ | FNXDOMAIN _ _ | FYXDOMAIN | FNoNameservers _ | FLifetime _ _ => True
+  | _ => False
+  end.
+
+(* Resolver.resolve as a whole: one of the six documented results, or the two refusals that happen
+   before any query is sent (metaquery; a candidate name that does not fit in 255 octets) *)
+Theorem resolve_documented_results : forall sc r rq ch e f ch' e',
+  NoDup (ids (r_servers r)) -> (forall i, 0 <= o_dur (sc i)) ->
+  resolve 0 sc r rq ch e = (f, ch', e') ->
+  documented f \/
+  (f = FNoMetaqueries /\ (is_metatype (rq_rdtype rq) = true \/ is_metaclass (rq_rdclass rq) = true) /\ e' = e /\ ch' = ch) \/
+  (exists er, f = FLibError er /\ qnames_to_try r (rq_qname rq) (rq_search rq) = Lib er /\ e' = e /\ ch' = ch).
+Proof.
+  intros sc r rq ch e f ch' e' HND Hdur H. unfold resolve in H.
+  destruct (is_metatype (rq_rdtype rq)) eqn:EM.
+  - inversion H; subst. right. left. auto.
+  - destruct (is_metaclass (rq_rdclass rq)) eqn:EC.
+    + inversion H; subst. right. left. auto.
+    + destruct (qnames_to_try r (rq_qname rq) (rq_search rq)) as [qs|er|er] eqn:EQ.
+      * rewrite Nat.add_0_r in H.
+        destruct (resolve_with (fuel_bound (mk_cfg r rq qs)) sc (mk_cfg r rq qs) ch e) as [[f0 s0] e0] eqn:ER.
+        inversion H; subst f0 e0 ch'. clear H.
+        destruct (resolve_terminates_within_lifetime _ _ _ _ _ _ _ Hdur ER) as (HF & _).
+        destruct (broken_never_reasked_resolve sc (mk_cfg r rq qs) HND _ _ _ _ _ _ ER HF) as (_ & HNI).
+        destruct (outcome_spec_resolve _ _ _ _ _ _ _ _ ER HF) as (new & _ & HO).
+        left. destruct f; simpl; auto.
+        -- destruct HO as [[] _].
+        -- destruct HO as [[] _].
+        -- exfalso. eapply HNI; eauto.
+      * inversion H; subst. right. right. exists er. auto.
+      * exfalso. eapply qnames_to_try_no_internal; eauto.
+Qed.
